@@ -136,6 +136,12 @@ def get_hed_version_path(xml_version, library_name=None, local_hed_directory=Non
         local_hed_directory = HED_CACHE_DIRECTORY
 
     hed_versions = get_hed_versions(local_hed_directory, library_name, check_prerelease)
+    if xml_version and (not hed_versions or xml_version not in hed_versions) \
+            and os.path.realpath(local_hed_directory) == os.path.realpath(HED_CACHE_DIRECTORY):
+        # The cache may be incomplete: a population that was interrupted leaves a non-empty folder, which
+        # get_hed_versions never fills again.  Copy whatever bundled schema is still missing and look again.
+        cache_local_versions(local_hed_directory)
+        hed_versions = get_hed_versions(local_hed_directory, library_name, check_prerelease)
     if not hed_versions or not xml_version:
         return None
     if xml_version in hed_versions:
